@@ -176,11 +176,18 @@ func (e *dExec) step(line string) (out string) {
 			e.cnt.inc("impl.panic")
 			e.find("C05", "panic", strings.Fields(line)[0], fmt.Sprint(r))
 		}
+		// C06: one call must not keep offering data to a writer that takes nothing
+		if e.w != nil && e.w.maxIdle >= 3 {
+			e.cnt.inc("dd.noprogress")
+			e.find("C06", "Decoder call keeps re-offering data to a writer that makes no progress",
+				strings.Fields(line)[0], fmt.Sprintf("emptydrains=%d", e.w.maxIdle))
+		}
 	}()
 	ws := strings.Fields(line)
 	b := e.buf
 	if e.w != nil {
 		e.gotBase = len(e.w.got)
+		e.w.resetStreak()
 	}
 	site := ws[0]
 	switch ws[0] {
